@@ -174,7 +174,13 @@ def run_jobs(jobs, order, procs):
                     results[i] = {"job": jobs[i], "status": "error", "failures": [], "error": "worker died"}
                 done.append(i)
             elif not p.is_alive():
-                results[i] = {"job": jobs[i], "status": "error", "failures": [], "error": f"worker exit {p.exitcode}"}
+                if conn.poll(0.5):  # the result may have been written just before exit
+                    try:
+                        results[i] = conn.recv()
+                    except EOFError:
+                        results[i] = {"job": jobs[i], "status": "error", "failures": [], "error": "worker died"}
+                else:
+                    results[i] = {"job": jobs[i], "status": "error", "failures": [], "error": f"worker exit {p.exitcode}"}
                 done.append(i)
             elif time.time() > deadline:
                 p.kill()
